@@ -344,6 +344,7 @@ func newStorage(opt Options, id uint64) (raft.IExtRaftStorage, func(), error) {
 		if err := os.MkdirAll(dir, 0755); err != nil {
 			return nil, nil, err
 		}
+		engine.SetLogLevel(0)
 		cfg := engine.NewRockConfig()
 		cfg.DataDir = dir
 		cfg.DisableWAL = true
